@@ -57,6 +57,9 @@ def case_base(case):
         d["cfg"]["validation_library"] = case["base"]
         return d
     d = base_desc(case["base"], case.get("viz") or bool(case.get("vizvia")), case.get("maps"))
+    if case.get("privfields"):
+        C.add_priv_fields(d)
+        d["cfg"]["include_private"] = bool(case.get("include_private"))
     return d
 
 
@@ -368,6 +371,19 @@ def force_histories(tier, rng):
     return cases
 
 
+def visibility_histories():
+    """field visibility (private, pub(crate), pub(super), pub) as a dimension of the struct-field edits, x include_private"""
+    cases = []
+    for entry in ("cli", "build"):
+        for mode in ("none", "zod"):
+            for ip in (False, True):
+                for e in C.PF_EDITS:
+                    cases.append({"entry": entry, "base": mode, "privfields": True, "include_private": ip, "ops": [e]})
+                cases.append({"entry": entry, "base": mode, "privfields": True, "include_private": ip,
+                              "ops": ["include_private", "pf:secret:type"]})
+    return cases
+
+
 def order_histories():
     """order-only edits of every ordered collection that reaches the output, each on its own and after one another"""
     order = ["param_swap", "field_swap", "variant_swap", "channel_swap", "event_swap", "struct_swap", "cmd_swap"]
@@ -435,7 +451,7 @@ def run(rep):
     outs, oo = eval_histories(witnesses() + regressions("C08"))
     rep.add("corpus", outs)
     rep.add("partition", eval_partition(partition_cases()))
-    cases = config_histories() + route_histories(rep.tier, rng) + loss_histories() + force_histories(rep.tier, rng) + order_histories() + event_histories(rep.tier, rng) + history_cases(rep.tier, rng)
+    cases = config_histories() + route_histories(rep.tier, rng) + loss_histories() + force_histories(rep.tier, rng) + order_histories() + visibility_histories() + event_histories(rep.tier, rng) + history_cases(rep.tier, rng)
     rep.extra["history_distribution"] = distribution(cases)
     total_oo = oo
     for i in range(0, len(cases), 400):
